@@ -21,7 +21,8 @@ TRUSTED = ["torch.fft / numpy.fft compute the defining DFT sums; torch index_add
            "fourier_translation_operator evaluates `-2j*pi*fftfreq` in float32/complex64 even for float64 positions, propagators are complex64: integer-shift = roll and the propagation identities hold to float32 accuracy only (5e-4 rule; measured ~4e-6, values in `measured`)"]
 ASSUMPTIONS = [
     "one model call handles one batch element; the batch/mode broadcasting of the torch code is exercised by the harness looping over the batch",
-    "in the stub streams Ptychography/Probe methods are called unbound on a minimal attribute stub (num_probes, num_slices, _propagators, roi_shape, probe_params, probe_tilt): the real function bodies run on float64/complex128 data; the `instance` stream calls the same methods bound to a real single-slice Ptychography object built by props/ptycho_tiny.py",
+    "`self` of every Ptychography/Probe method is a real preprocessed Ptychography object from props/ptycho_tiny.py: bound calls where the instance fits (projection, forward_operator, detector, patches), and for multislice / arbitrary-physics cases an unbound call on a `Borrow` of a real instance that overrides only num_slices, _propagators (resp. roi_shape, probe_params, probe_tilt of the probe model); bare attribute stubs are used only if the factory itself fails (counted as self=bare-stub / stub-insufficient)",
+    "an exception that escapes the real code on a valid input is reported as a predicate failure (key raises:<stream>:<type>) with that input",
     "mixed-state exactness predicate is evaluated only at pixels whose input far field is not exactly zero",
     "negative flat indices are outside the stated domain (torch indexing wraps them, index_add_ rejects them)",
 ]
@@ -172,24 +173,92 @@ def T(I, a, dtype=None):
     return I.torch.tensor(np.asarray(a), dtype=dtype)
 
 
-# ----------------------------------------------------------------------------- stubs of `self`
-def probe_stub(I, roi_shape, energy, tilt):
-    return types.SimpleNamespace(roi_shape=np.array(roi_shape), device="cpu", probe_params={"energy": energy},
-                                 probe_tilt=I.torch.tensor(tilt, dtype=I.torch.float32))
+# ----------------------------------------------------------------------------- `self` for unbound calls
+class Borrow:
+    """`self` for an unbound call of a real method: every attribute comes from a REAL object
+    (a preprocessed tiny Ptychography / its probe model) except the few that are overridden, so a
+    refactor that merely reads another attribute of `self` keeps working."""
+
+    def __init__(self, real, **over):
+        object.__setattr__(self, "_real", real)
+        object.__setattr__(self, "_over", over)
+
+    def __getattr__(self, name):
+        over = object.__getattribute__(self, "_over")
+        if name in over:
+            return over[name]
+        return getattr(object.__getattribute__(self, "_real"), name)
 
 
-def ptycho_stub(I, num_probes, num_slices, propagators):
-    s = types.SimpleNamespace(num_probes=num_probes, num_slices=num_slices, _propagators=propagators)
-    s._propagate_array = lambda a, p: I.Base._propagate_array(s, a, p)
-    s.estimate_amplitudes = lambda *a, **k: I.Base.estimate_amplitudes(s, *a, **k)
-    s.estimate_intensities = lambda *a, **k: I.Base.estimate_intensities(s, *a, **k)
-    s.fourier_projection = lambda *a, **k: I.Pty.fourier_projection(s, *a, **k)
-    s.overlap_projection = lambda *a, **k: I.Base.overlap_projection(s, *a, **k)
-    return s
+class StubInsufficient(Exception):
+    pass
 
 
-def impl_propagators(I, nr, nc, sr, sc, energy, thr, thc, num_slices, dzs):
-    st = probe_stub(I, (nr, nc), energy, (thr, thc))
+_INST = {}
+
+
+def real_instance(ctx, M, roi=(8, 8), obj_type="complex", cache=True, seed=0, rng_seed=1, scan=(2, 2)):
+    """a real preprocessed Ptychography (props/ptycho_tiny.py) with M probe modes; None if the factory fails"""
+    import warnings
+    from props import ptycho_tiny as pt
+    key = (M, tuple(roi), obj_type)
+    if cache and key in _INST:
+        return _INST[key]
+    try:
+        with warnings.catch_warnings():
+            warnings.simplefilter("ignore")
+            p = pt.make_ptycho(scan=scan, roi=tuple(roi), seed=seed, rng_seed=rng_seed, num_probes=M, obj_type=obj_type)
+    except Exception as e:   # noqa: BLE001  (factory, not the operators under test)
+        ctx.dist[f"factory-failed:{type(e).__name__}"] += 1
+        p = None
+    if cache:
+        _INST[key] = p
+    return p
+
+
+def probe_self(I, ctx, roi_shape, energy, tilt):
+    over = dict(roi_shape=np.array(roi_shape), device="cpu", probe_params={"energy": energy},
+                probe_tilt=I.torch.tensor(tilt, dtype=I.torch.float32))
+    p = real_instance(ctx, 1)
+    if p is None:
+        ctx.dist["self=bare-stub"] += 1
+        return types.SimpleNamespace(**over)
+    return Borrow(p.probe_model, **over)
+
+
+def ptycho_self(I, ctx, num_probes, num_slices, propagators):
+    """`self` for PtychographyBase/Ptychography methods: a real instance with `num_probes` modes,
+    with num_slices/_propagators overridden (the factory builds single-slice objects)"""
+    p = real_instance(ctx, num_probes)
+    if p is None:
+        ctx.dist["self=bare-stub"] += 1
+        s = types.SimpleNamespace(num_probes=num_probes, num_slices=num_slices, _propagators=propagators)
+        s._propagate_array = lambda a, q: I.Base._propagate_array(s, a, q)
+        s.estimate_amplitudes = lambda *a, **k: I.Base.estimate_amplitudes(s, *a, **k)
+        s.fourier_projection = lambda *a, **k: I.Pty.fourier_projection(s, *a, **k)
+        s.overlap_projection = lambda *a, **k: I.Base.overlap_projection(s, *a, **k)
+        s.gradient_step = lambda *a, **k: I.Pty.gradient_step(s, *a, **k)
+        return s
+    b = Borrow(p, num_slices=num_slices, _propagators=propagators)
+    over = object.__getattribute__(b, "_over")
+    # methods that the methods under test call on `self` must see the overrides too
+    over["_propagate_array"] = lambda a, q: I.Base._propagate_array(b, a, q)
+    over["overlap_projection"] = lambda *a, **k: I.Base.overlap_projection(b, *a, **k)
+    over["estimate_amplitudes"] = lambda *a, **k: I.Base.estimate_amplitudes(b, *a, **k)
+    over["fourier_projection"] = lambda *a, **k: I.Pty.fourier_projection(b, *a, **k)
+    return b
+
+
+def raised_in_real_code(exc):
+    """True if the traceback passes through the quantem tree under test"""
+    import os
+    import traceback
+    root = os.path.join(os.path.realpath(os.environ.get("QVERIF_REPO", "/repo")), "src") + os.sep
+    return any(os.path.realpath(fr.filename).startswith(root) for fr in traceback.extract_tb(exc.__traceback__))
+
+
+def impl_propagators(I, ctx, nr, nc, sr, sc, energy, thr, thc, num_slices, dzs):
+    st = probe_self(I, ctx, (nr, nc), energy, (thr, thc))
     return I.Probe._compute_propagator_arrays(st, (sr, sc), num_slices, np.asarray(dzs, dtype=np.float64))
 
 
@@ -464,7 +533,7 @@ def s_prop(ctx, drv, I, case):
     mw = b2f(ask(drv, {"op": "wavelength", "energy": f2b(energy)})["ok"])
     corr(ctx, "wavelength", case, np.array([mw]), np.array([I.wl(energy)]), TOL64)
     # the call as the reconstruction makes it
-    P = impl_propagators(I, nr, nc, sr, sc, energy, thr, thc, S, dzs)
+    P = impl_propagators(I, ctx, nr, nc, sr, sc, energy, thr, thc, S, dzs)
     mP = model_propagators(drv, nr, nc, sr, sc, energy, thr, thc, S, dzs)
     if S == 1:
         if P.numel() != 0 or mP != []:
@@ -478,7 +547,7 @@ def s_prop(ctx, drv, I, case):
             corr(ctx, "propagators", case, mP[s], Pn[s], TOL32)
     # identities: thickness list [d1, d2, d1+d2, -d1]
     dl = [d1, d2, d1 + d2, -d1]
-    Q = impl_propagators(I, nr, nc, sr, sc, energy, thr, thc, 5, dl).numpy().astype(np.complex128)
+    Q = impl_propagators(I, ctx, nr, nc, sr, sc, energy, thr, thc, 5, dl).numpy().astype(np.complex128)
     mQ = model_propagators(drv, nr, nc, sr, sc, energy, thr, thc, 5, dl)
     for s in range(4):
         corr(ctx, "propagators", case, mQ[s], Q[s], TOL32, note=f"dz={dl[s]}")
@@ -544,8 +613,8 @@ def s_forward(ctx, drv, I, case):
     obj_t = T(I, obj, torch.float64 if real_obj else torch.complex128)
     patches = I.Obj._get_obj_patches(None, obj_t, T(I, idx, torch.int64))          # (S,B,nr,nc)
     shifted = I.pu.fourier_shift_expand(T(I, probe, torch.complex128), T(I, fract, torch.float64)).swapaxes(0, 1)   # (M,B,nr,nc)
-    props = impl_propagators(I, nr, nc, sr, sc, energy, thr, thc, S, dzs)
-    st = ptycho_stub(I, M, S, props)
+    props = impl_propagators(I, ctx, nr, nc, sr, sc, energy, thr, thc, S, dzs)
+    st = ptycho_self(I, ctx, M, S, props)
     pp, overlap = I.Base.overlap_projection(st, patches, shifted)
     inten = I.Det().forward(overlap)                                                 # (B,nr,nc)
     pn, sn, ppn, on, inn = patches.numpy(), shifted.numpy(), pp.numpy(), overlap.numpy(), inten.numpy()
@@ -627,10 +696,11 @@ def s_proj(ctx, drv, I, case):
     ctx.dist[f"proj.parity={psig(nr, nc)}"] += 1
     ctx.dist[f"proj.amp={akind}"] += 1
     ctx.dist[f"proj.overlap={okind},scale=2^{int(np.log2(scale))}"] += 1
-    st = ptycho_stub(I, M, 1, None)
+    # bound methods of a real M-mode Ptychography instance (bare stub only if the factory is unavailable)
+    st = real_instance(ctx, M) or ptycho_self(I, ctx, M, 1, None)
     At, xt = T(I, A, torch.float64), T(I, x, torch.complex128)
-    P = I.Pty.fourier_projection(st, At.clone(), xt.clone())
-    G = I.Pty.gradient_step(st, At.clone(), xt.clone())
+    P = st.fourier_projection(At.clone(), xt.clone())
+    G = st.gradient_step(At.clone(), xt.clone())
     Pn, Gn = P.numpy(), G.numpy()
     if Pn.shape != x.shape:
         ctx.disagree("fourier-projection", case, list(x.shape), list(Pn.shape), "shape")
@@ -644,7 +714,7 @@ def s_proj(ctx, drv, I, case):
             corr(ctx, f"gradient-step-{sk}", case, dec_img(mg[m_]), Gn[m_, b], TOL64)
     # estimate_amplitudes (eps = 1e-9 inside; used by the loss path, no longer by the projection)
     cc = rng.chance(0.5)
-    ea = I.Base.estimate_amplitudes(st, xt.clone(), corner_centered=cc).numpy()
+    ea = st.estimate_amplitudes(xt.clone(), corner_centered=cc).numpy()
     for b in range(B):
         me = dec_rows(ask(drv, {"op": "estimate_amplitudes", "waves": [enc_img(x[m_, b]) for m_ in range(M)], "corner": cc})["ok"])
         corr(ctx, "estimate-amplitudes", case, me, ea[b], TOL64)
@@ -660,31 +730,37 @@ def s_proj(ctx, drv, I, case):
     det = np.sqrt(I.Det().forward(P).numpy())
     pred(ctx, f"proj-exact-detector:{sk}:{key_par}", "sqrt(DetectorPixelated.forward(projection)) != measured amplitudes", case,
          np.where(good, det, A), A, TOL64, f"projection exactness via detector {sk}")
-    P2 = I.Pty.fourier_projection(st, At.clone(), P.clone()).numpy()
+    P2 = st.fourier_projection(At.clone(), P.clone()).numpy()
     pred(ctx, f"proj-idempotent:{sk}:{key_par}", "Fourier projection is not idempotent", case, P2, Pn, TOL64, f"projection idempotence {sk}")
     ctx.sample({k: case[k] for k in ("stream", "rseed", "shape", "modes", "batch", "overlap_scale", "amp_kind", "overlap_kind")}, limit=6)
 
 
 # ----------------------------------------------------------------------------- stream: bound methods of a real Ptychography instance
+INST_SHAPES = [(9, 9), (8, 11), (8, 8), (7, 10), (11, 8), (5, 5), (6, 4), (4, 7), (12, 9), (3, 6)]
+
+
 def s_instance(ctx, drv, I, case):
-    """the same operators called as bound methods of a real (tiny) Ptychography object built by
-    props/ptycho_tiny.py: its own patch indices (wrap-around, repeats), probe, detector, dispatch on num_probes"""
-    import warnings
+    """the operators called as bound methods of a real (tiny) Ptychography object built by
+    props/ptycho_tiny.py, for all three object types: projection (single + mixed state, odd / even /
+    non-square ROI), the dataset's own patch indices (wrap-around, repeats), and the real forward
+    path obj_model.forward -> probe_model.forward -> forward_operator(descan) -> detector_model.forward"""
     from qv.prng import Rng
-    from props import ptycho_tiny as pt
     torch = I.torch
     rng = Rng(case["rseed"])
-    nr, nc = rng.randint(4, 10), rng.randint(4, 10)
-    M = rng.randint(1, 3)
+    nr, nc = rng.choice(INST_SHAPES) if rng.chance(0.7) else (rng.randint(3, 12), rng.randint(3, 12))
+    M = rng.weighted([(1, 2), (2, 3), (3, 3)])
+    obj_type = rng.choice(["complex", "pure_phase", "potential"])
+    dkind = rng.weighted([("none", 1), ("zero", 1), ("nonzero", 3)])
     scan = (rng.randint(2, 3), rng.randint(2, 3))
-    case.update({"shape": [nr, nc], "modes": M, "scan": list(scan)})
+    case.update({"shape": [nr, nc], "modes": M, "scan": list(scan), "obj_type": obj_type, "descan": dkind})
     ctx.count()
-    ctx.mark(("instance", psig(nr, nc), M))
+    ctx.mark(("instance", psig(nr, nc), M, obj_type, dkind))
     ctx.dist[f"instance.modes={M}"] += 1
     ctx.dist[f"instance.parity={psig(nr, nc)}"] += 1
-    with warnings.catch_warnings():
-        warnings.simplefilter("ignore")
-        p = pt.make_ptycho(scan=scan, roi=(nr, nc), seed=rng.randint(0, 50), rng_seed=rng.randint(0, 50), num_probes=M)
+    ctx.dist[f"instance.obj_type={obj_type},descan={dkind}"] += 1
+    p = real_instance(ctx, M, (nr, nc), obj_type, cache=False, seed=rng.randint(0, 50), rng_seed=rng.randint(0, 50), scan=scan)
+    if p is None:
+        return
     if int(p.num_probes) != M or tuple(int(v) for v in p.roi_shape) != (nr, nc):
         ctx.disagree("instance", case, [M, nr, nc], [int(p.num_probes)] + [int(v) for v in p.roi_shape], "factory geometry")
         return
@@ -735,57 +811,101 @@ def s_instance(ctx, drv, I, case):
             ctx.disagree("instance-gather-int", case, str(mgi)[:200], part(g[0]).reshape(-1).tolist()[:20], "own patch indices")
         if "err" in msi or part(sc_).reshape(-1).tolist() != [float(v) for v in msi["ok"]]:
             ctx.disagree("instance-scatter-int", case, str(msi)[:200], part(sc_).reshape(-1).tolist()[:20], "own patch indices")
-    ci = lambda a: [complex(int(round(z.real)), int(round(z.imag))) for z in np.asarray(a).reshape(-1)]
+    ci = lambda a: [complex(int(round(z.real)), int(round(z.imag))) for z in np.asarray(a).reshape(-1)]   # noqa: E731
     lhs = sum(a.conjugate() * b for a, b in zip(ci(g[0]), ci(pw)))
     rhs = sum(a.conjugate() * b for a, b in zip(ci(obj[0]), ci(sc_)))
     if lhs != rhs:
         ctx.pred_fail("adjoint:instance", "<gather(o,idx),p> != <o,scatter(p,idx)> on the dataset's own patch indices", case, observed=str(lhs), required=str(rhs))
-    # ---- (c) float32 forward pass through the instance: pure-phase object, own probe, descan ramp
+    # ---- (c) the real forward path in the instance's own precision (float32), all object types, descan variants
     nb = idx.shape[0]
-    phi = rarr(rng, (1, H, W), -3, 3, 64).astype(np.float32)
-    patches = p.obj_model._get_obj_patches(T(I, phi, torch.float32), idx_t)                      # exp(1j*phi) branch
+    phi = rarr(rng, (1, H, W), 0, 3, 64).astype(np.float32)
+    if obj_type == "potential":
+        newobj = T(I, phi, torch.float32)                                  # patches = exp(1j*potential)
+    elif obj_type == "pure_phase":
+        newobj = T(I, (rarr(rng, (1, H, W), 0.25, 2, 16) * np.exp(1j * phi)).astype(np.complex64), torch.complex64)   # amplitude is discarded by the model
+    else:
+        newobj = T(I, np.exp(1j * phi).astype(np.complex64), torch.complex64)   # complex object that happens to be pure phase
+    p.obj_model._obj.data = newobj
+    patches = p.obj_model.forward(idx_t)                                   # (1, nb, nr, nc): hard constraints + _get_obj_patches
     fract = T(I, np.array([[dy(rng, -0.5, 0.5, 64), dy(rng, -0.5, 0.5, 64)] for _ in range(nb)]), torch.float32)
-    shifted = p.probe_model.forward(fract)                                                       # (M, nb, nr, nc) complex64
-    descan = None if rng.chance(0.4) else T(I, np.array([[dy(rng, -1, 1, 64), dy(rng, -1, 1, 64)] for _ in range(nb)]), torch.float32)
-    ctx.dist[f"instance.descan={'none' if descan is None else 'ramp'}"] += 1
-    _pp, overlap = p.forward_operator(patches, shifted, descan)
+    shifted = p.probe_model.forward(fract)                                 # (M, nb, nr, nc) complex64
+    if dkind == "none":
+        descan = None
+    elif dkind == "zero":
+        descan = torch.zeros((nb, 2), dtype=torch.float32)
+    else:
+        descan = T(I, np.array([[dy(rng, -2, 2, 64), dy(rng, -2, 2, 64)] for _ in range(nb)]), torch.float32)
+    pn, sn = patches.numpy().astype(np.complex128), shifted.numpy().astype(np.complex128)
+    if tuple(pn.shape) != (1, nb, nr, nc) or tuple(sn.shape) != (M, nb, nr, nc):
+        ctx.disagree("instance-forward", case, [[1, nb, nr, nc], [M, nb, nr, nc]], [list(pn.shape), list(sn.shape)], "patch / probe shapes")
+        return
+    _pp, overlap = p.forward_operator(patches.clone(), shifted.clone(), None if descan is None else descan.clone())
     inten = p.detector_model.forward(overlap).numpy().astype(np.float64)
+    unit = maxabs(np.abs(pn) - 1.0) <= 1e-5
+    ctx.dist[f"instance.patches_unit_modulus={unit}"] += 1
     ptot = float(np.sum(np.abs(p.probe_model.probe.detach().numpy().astype(np.complex128)) ** 2))
-    pred(ctx, f"purephase-energy:instance:{psig(nr, nc)}", "summed predicted diffraction intensity != probe total intensity (real instance, float32)", case,
-         inten.sum(axis=(1, 2)) / ptot, np.ones(nb), TOL32, "pure-phase energy on a real instance (float32)")
-    if descan is None:   # model of the same pass for one pattern (float32 data → 5e-4 rule)
-        b = rng.below(nb)
-        pn, sn = patches.numpy().astype(np.complex128), shifted.numpy().astype(np.complex128)
-        r = ask(drv, {"op": "overlap_projection", "patches": [enc_img(pn[0, b])], "props": [], "probes": [enc_img(sn[m_, b]) for m_ in range(M)]})["ok"]
+    if unit:
+        pred(ctx, f"purephase-energy:instance:{obj_type}:descan-{dkind}", "summed predicted diffraction intensity != probe total intensity (real instance, float32)", case,
+             inten.sum(axis=(1, 2)) / ptot, np.ones(nb), TOL32, "pure-phase energy on a real instance (float32)")
+    # the same pass through the model for one or two patterns (float32 data -> 5e-4 rule)
+    dn = None if descan is None else descan.numpy().astype(np.float64)
+    for b in sorted({rng.below(nb), rng.below(nb)}):
+        req = {"op": "forward_operator", "patches": [enc_img(pn[0, b])], "props": [], "probes": [enc_img(sn[m_, b]) for m_ in range(M)]}
+        if dn is not None:
+            req["descan"] = [f2b(dn[b, 0]), f2b(dn[b, 1])]
+        r = ask(drv, req)["ok"]
+        on = overlap.numpy().astype(np.complex128)
+        for m_ in range(M):
+            corr(ctx, f"instance-forward-operator:{obj_type}:descan-{dkind}", case, dec_img(r["overlap"][m_]), on[m_, b], TOL32)
         md = dec_rows(ask(drv, {"op": "detector", "waves": r["overlap"]})["ok"])
-        corr(ctx, "instance-forward", case, md, inten[b], TOL32)
-    ctx.sample({k: case[k] for k in ("stream", "rseed", "shape", "modes", "scan")}, limit=7)
+        corr(ctx, "instance-forward-detector", case, md, inten[b], TOL32)
+    ctx.sample({k: case[k] for k in ("stream", "rseed", "shape", "modes", "scan", "obj_type", "descan")}, limit=7)
 
 
 STREAMS = {           # name: (function, quick count, thorough count)
-    "gs": (s_gs, 300, 4000),
-    "shiftint": (s_shiftint, 120, 1500),
-    "shift": (s_shift, 160, 2000),
-    "prop": (s_prop, 140, 2000),
-    "forward": (s_forward, 140, 2000),
-    "proj": (s_proj, 220, 3000),
-    "instance": (s_instance, 30, 300),
+    "gs": (s_gs, 250, 4000),
+    "shiftint": (s_shiftint, 100, 1500),
+    "shift": (s_shift, 130, 2000),
+    "prop": (s_prop, 110, 2000),
+    "forward": (s_forward, 110, 2000),
+    "proj": (s_proj, 200, 3000),
+    "instance": (s_instance, 60, 600),
 }
+
+
+def run_case(ctx, drv, I, name, case):
+    """one case; an exception that comes out of the real code on a valid input is a predicate
+    failure with that input (never a harness crash); anything else is a harness bug and propagates"""
+    fn = STREAMS[name][0]
+    try:
+        fn(ctx, drv, I, case)
+    except Exception as e:   # noqa: BLE001
+        if not raised_in_real_code(e):
+            raise
+        if isinstance(e, AttributeError) and "SimpleNamespace" in str(e):
+            ctx.dist[f"stub-insufficient:{name}"] += 1      # bare stub (factory unavailable) lacks an attribute
+            return
+        import traceback
+        where = [f"{fr.filename.split('/src/')[-1]}:{fr.lineno}" for fr in traceback.extract_tb(e.__traceback__) if "/quantem/" in fr.filename][-1:]
+        ctx.pred_fail(f"raises:{name}:{type(e).__name__}", f"the real code raised on a valid input ({name} stream)", case,
+                      observed=f"{type(e).__name__}: {str(e)[:200]} at {where}", required="no exception")
 
 
 def run(ctx):
     from qv.driver import Driver
     I = _imports()
     I.torch.set_grad_enabled(False)
+    _INST.clear()
     drv = Driver("C16")
     try:
         for name, (fn, nq, nt) in STREAMS.items():
             for i in range(ctx.n(nq, nt)):
                 case = {"stream": name, "rseed": ctx.rng.next()}
-                fn(ctx, drv, I, case)
+                run_case(ctx, drv, I, name, case)
     finally:
         drv.close()
         I.torch.set_grad_enabled(True)
+        _INST.clear()
 
 
 def replay(ctx, rep):
@@ -795,10 +915,12 @@ def replay(ctx, rep):
     case = rep.get("case") or (rep.get("correspondence_disagreements") or rep.get("disagreements") or [{}])[0].get("case")
     if not case:
         return False
+    _INST.clear()
     drv = Driver("C16")
     try:
-        STREAMS[case["stream"]][0](ctx, drv, I, {"stream": case["stream"], "rseed": case["rseed"]})
+        run_case(ctx, drv, I, case["stream"], {"stream": case["stream"], "rseed": case["rseed"]})
     finally:
         drv.close()
         I.torch.set_grad_enabled(True)
+        _INST.clear()
     return True
